@@ -158,22 +158,36 @@ void h_reloadPoints(void){
 }
 
 //@ text3
+typedef struct { NodeDataList data; } SimpleConstructData;
+int g_exp_b, g_exp_e, g_slices; bool g_slice_ok;      /* ghost: the range the caller asked for, the number of slices, did every slice take that range */
 static gvec gvec_slice(gvec v, int ibegin, int iend){
   __CPROVER_assert(0 <= ibegin && ibegin <= iend && (size_t) iend <= v.len, "C11 restrictData: the output range lies inside every stored value vector");
+  if (ibegin != g_exp_b || iend != g_exp_e) g_slice_ok = false;
+  g_slices++;
   gvec r = { v.id, (size_t)(iend - ibegin) }; return r;      /* the slice keeps the identity of the vector it was cut from */
 }
 //@ harness h_restrictData
 /* class invariant of DynamicConstructorDataGlobal: every stored node carries num_outputs values (ejectCompleteTensor copies num_outputs entries of each).
  * A copy restricted to the outputs [ibegin, iend) must satisfy it for iend - ibegin outputs. */
 void h_restrictData(void){
-  DynamicConstructorDataGlobal g; int a_nn = nondet_int(), a_b = nondet_int(), a_e = nondet_int();
-  g.num_dimensions = 2; g.num_outputs = nondet_size_t();
-  __CPROVER_assume(a_nn >= 0 && a_nn <= TSG_NL && g.num_outputs >= 1 && g.num_outputs <= 20 && 0 <= a_b && a_b < a_e && (size_t) a_e <= g.num_outputs);
-  node_pool_used = 0; g.data.bb.next = NULL; g.tensors.bb.next = NULL;
-  for (int k = 0; k < TSG_NL; k++) if (k < a_nn) tsg_fl_emplace_front_NodeData(&g.data, vec_sym(2), vec_sym(g.num_outputs));     /* invariant at entry */
-  DynamicConstructorDataGlobal_restrictData(&g, a_b, a_e);
+  GTYPE g; int a_nn = nondet_int(), a_b = nondet_int(), a_e = nondet_int(); size_t a_no = nondet_size_t();
+  __CPROVER_assume(a_nn >= 0 && a_nn <= TSG_NL && a_no >= 1 && a_no <= 20 && 0 <= a_b && a_b < a_e && (size_t) a_e <= a_no);
+  node_pool_used = 0; g.data.bb.next = NULL;
+#ifndef TSG_SIMPLE
+  g.num_dimensions = 2; g.num_outputs = a_no; g.tensors.bb.next = NULL;
+#endif
+  for (int k = 0; k < TSG_NL; k++) if (k < a_nn) tsg_fl_emplace_front_NodeData(&g.data, vec_sym(2), vec_sym(a_no));     /* invariant at entry */
+  g_slices = 0; g_slice_ok = true; g_exp_b = a_b; g_exp_e = a_e;
+  RESTRICT(&g, a_b, a_e);
+  __CPROVER_assert(g_slice_ok, "C11 restrictData keeps exactly the outputs [ibegin, iend) of every stored value vector");
+  __CPROVER_assert(g_slices == a_nn, "C11 restrictData restricts every stored node once");
+#ifndef TSG_SIMPLE
   __CPROVER_assert(g.num_outputs == (size_t)(a_e - a_b), "C11 the restricted copy of the construction data knows its new number of outputs (what ejectCompleteTensor copies per node)");
   for (const NodeData *p = g.data.bb.next; p != NULL; p = p->next)
     __CPROVER_assert(p->value.len == g.num_outputs, "C11 class invariant after restrictData: every stored node carries num_outputs values");
+#else
+  for (const NodeData *p = g.data.bb.next; p != NULL; p = p->next)
+    __CPROVER_assert(p->value.len == (size_t)(a_e - a_b), "C11 after restrictData every stored node carries iend - ibegin values");
+#endif
   __CPROVER_assert(0, "VACUITY-CANARY");
 }
